@@ -3367,7 +3367,7 @@ class sptensor:
                 morevals = np.empty((moresubs.shape[0], 1))
                 morevals.fill(np.nan)
                 if moresubs.size > 0:
-                    newsubs = np.vstack((newsubs, SelfZeroSubs[moresubs, :]))
+                    newsubs = np.vstack((newsubs, self.subs[moresubs, :]))
                     newvals = np.vstack((newvals, morevals))
 
             # other nonzero and self zero
@@ -3376,7 +3376,7 @@ class sptensor:
                 morevals = np.empty((moresubs.shape[0], 1))
                 morevals.fill(0)
                 if moresubs.size > 0:
-                    newsubs = np.vstack((newsubs, OtherZeroSubs[moresubs, :]))
+                    newsubs = np.vstack((newsubs, other.subs[moresubs, :]))
                     newvals = np.vstack((newvals, morevals))
 
             # Both zero
